@@ -1,4 +1,6 @@
 """C04 - encoded bytes equal the independent AMQP 0-9-1 reference encoder."""
+import copy
+
 from mc import alphabets as A
 from mc import corpus, lib, refcodec, spec_table, values
 from mc.canon import canon, fromjson, short, tojson
@@ -24,6 +26,10 @@ def tasks(tier, seed):
             [('h',) + tuple(t) for t in corpus.header_tasks(tier)] +
             [('v',) + tuple(t) for t in values.value_tasks(tier)] +
             [('misc',)] +
+            [('reuse', m.name, src) for m in spec_table.METHODS if m.args
+             for src in ('constructed', 'decoded')] +
+            [('reuse', 'header', 'constructed'),
+             ('reuse', 'header', 'decoded')] +
             [('dense',) + t for t in corpus.dense_tasks(tier)])
 
 
@@ -177,9 +183,176 @@ def check_misc(ctx):
                         'channels': len(A.CHANNEL)})
 
 
+# ---------------------------------------------------------------------------
+# One object encoded again and again while its arguments change (by
+# assignment and by in-place mutation of its tables): every encoding must be
+# the reference encoding of the CURRENT arguments.
+
+TABLE_OPS = ['add', 'nest-append', 'nest-set', 'replace', 'del', 'clear']
+
+
+def fresh_table():
+    return {'a': [1], 'd': {'x': 1}, 'k': 'v'}
+
+
+def apply_table_op(t, op):
+    if op == 'add':
+        t['zz-added'] = 40000
+    elif op == 'nest-append':
+        t['a'].append('x')
+    elif op == 'nest-set':
+        t['d']['n'] = 2**40
+    elif op == 'replace':
+        t['k'] = -129
+    elif op == 'del':
+        del t['k']
+    elif op == 'clear':
+        t.clear()
+
+
+def reuse_steps_method(m):
+    steps = []
+    for idx, (name, wt, _d) in enumerate(m.args):
+        dom = corpus.arg_domain(m, name, wt)
+        for alt in dom:
+            steps.append(('set', idx, alt))
+        if wt == 'table':
+            steps.append(('set', idx, 'FRESH'))
+            for op in TABLE_OPS:
+                steps.append(('mut', idx, op))
+            steps.append(('set', idx, 'FRESH'))
+            steps.append(('mut', idx, 'nest-append'))
+    return steps
+
+
+def run_reuse_method(ctx, m, source, upto=None):
+    p = lib.pamqp()
+    vec = list(corpus.nondefault_vector(m))
+    obj = corpus.construct(m, copy.deepcopy(vec))
+    if source == 'decoded':
+        obj = p.frame.unmarshal(p.frame.marshal(obj, 1))[2]
+        vec = [getattr(obj, a[0]) for a in m.args]
+        vec = copy.deepcopy(vec)
+    p.frame.marshal(obj, 1)
+    steps = reuse_steps_method(m)
+    for n, (kind, idx, arg) in enumerate(steps):
+        if upto is not None and n > upto:
+            break
+        name = m.args[idx][0]
+        if kind == 'set':
+            val = fresh_table() if isinstance(arg, str) and arg == 'FRESH' \
+                and m.args[idx][1] == 'table' else arg
+            setattr(obj, name, copy.deepcopy(val))
+            vec[idx] = copy.deepcopy(val)
+        else:
+            apply_table_op(getattr(obj, name), arg)
+            apply_table_op(vec[idx], arg)
+        if upto is not None and n < upto:
+            p.frame.marshal(obj, 1)
+            continue
+        ctx.case(('reuse', m.name, source, n), True, sample=lambda: {
+            'method': m.name, 'object': source, 'step': [kind, name,
+                                                         short(arg, 60)]})
+        case = {'kind': 'reuse', 'method': m.name, 'source': source,
+                'upto': n}
+        fp = 'reuse|{}|{}|{}'.format(m.name, source, n)
+        try:
+            want, fields = refcodec.enc_method_frame(m, tuple(vec), 1)
+        except refcodec.RefError:
+            continue
+        try:
+            got = p.frame.marshal(obj, 1)
+            ctx.calls()
+        except Exception as exc:  # noqa
+            ctx.violation(fp, '{} ({}) refused after step {} {} {}: {!r}'
+                          .format(m.name, source, kind, name, short(arg, 80),
+                                  exc), case, 'accepted', repr(exc))
+            continue
+        report(ctx, fp, '{} object ({}) encoded again after {} {}={} (step '
+               '{} on the same object)'.format(m.name, source, kind, name,
+                                               short(arg, 80), n), case,
+               want, got, fields)
+
+
+def reuse_steps_header():
+    steps = [('size', None, v) for v in (0, 2**64 - 1, 7)]
+    for name, wt, _b in corpus.SETTABLE:
+        for alt in corpus.prop_value_domain(name, wt)[:6]:
+            steps.append(('set', name, alt))
+        steps.append(('set', name, None))
+        steps.append(('set', name, corpus.prop_value_domain(name, wt)[0]))
+        if wt == 'table':
+            steps.append(('set', name, 'FRESH'))
+            for op in TABLE_OPS:
+                steps.append(('mut', name, op))
+    steps.append(('newprops', None, None))
+    steps.append(('set', 'headers', 'FRESH'))
+    steps.append(('mut', 'headers', 'nest-append'))
+    return steps
+
+
+def run_reuse_header(ctx, source, upto=None):
+    p = lib.pamqp()
+    props = corpus.props_for_subset((1 << corpus.NSET) - 1)
+    size = 5
+    obj = corpus.construct_header(copy.deepcopy(props), size)
+    if source == 'decoded':
+        obj = p.frame.unmarshal(p.frame.marshal(obj, 1))[2]
+        props = {n: copy.deepcopy(getattr(obj.properties, n))
+                 for n, _t, _b in corpus.SETTABLE
+                 if getattr(obj.properties, n) is not None}
+    p.frame.marshal(obj, 1)
+    for n, (kind, name, arg) in enumerate(reuse_steps_header()):
+        if upto is not None and n > upto:
+            break
+        if kind == 'size':
+            obj.body_size = size = arg
+        elif kind == 'newprops':
+            props = {'app_id': 'new', 'priority': 3}
+            obj.properties = p.commands.Basic.Properties(**props)
+        elif kind == 'set':
+            val = fresh_table() if isinstance(arg, str) and arg == 'FRESH' \
+                and name == 'headers' else arg
+            setattr(obj.properties, name, copy.deepcopy(val))
+            if val is None:
+                props.pop(name, None)
+            else:
+                props[name] = copy.deepcopy(val)
+        else:
+            apply_table_op(getattr(obj.properties, name), arg)
+            apply_table_op(props[name], arg)
+        if upto is not None and n < upto:
+            p.frame.marshal(obj, 1)
+            continue
+        ctx.case(('reuse-header', source, n), True, sample=lambda: {
+            'object': 'ContentHeader ' + source,
+            'step': [kind, name, short(arg, 60)]})
+        case = {'kind': 'reuse-header', 'source': source, 'upto': n}
+        fp = 'reuse|header|{}|{}'.format(source, n)
+        want, fields = refcodec.enc_header_frame(size, props, 1)
+        try:
+            got = p.frame.marshal(obj, 1)
+            ctx.calls()
+        except Exception as exc:  # noqa
+            ctx.violation(fp, 'ContentHeader ({}) refused after step {} {} '
+                          '{}: {!r}'.format(source, kind, name,
+                                            short(arg, 80), exc), case,
+                          'accepted', repr(exc))
+            continue
+        report(ctx, fp, 'ContentHeader object ({}) encoded again after {} '
+               '{}={} (step {} on the same object)'.format(
+                   source, kind, name, short(arg, 80), n), case, want, got,
+               fields)
+
+
 def run(task, ctx):
     kind = task[0]
-    if kind == 'dense':
+    if kind == 'reuse':
+        if task[1] == 'header':
+            run_reuse_header(ctx, task[2])
+        else:
+            run_reuse_method(ctx, spec_table.BY_NAME[task[1]], task[2])
+    elif kind == 'dense':
         for m, vec, ch in corpus.dense_cases(task[1:], ctx.tier):
             ctx.case(('m', m.name, canon(list(vec)), ch), True,
                      sample=lambda: {'method': m.name,
@@ -229,5 +402,10 @@ def replay(case, ctx):
                      case['channel'])
     elif kind == 'value':
         check_value(ctx, case['position'], fromjson(case['value']))
+    elif kind == 'reuse':
+        run_reuse_method(ctx, spec_table.BY_NAME[case['method']],
+                         case['source'], upto=case['upto'])
+    elif kind == 'reuse-header':
+        run_reuse_header(ctx, case['source'], upto=case['upto'])
     else:
         check_misc(ctx)
